@@ -39,10 +39,64 @@ def gen_cases(seed, tier):
                           max_batch_size=mb, devices=int(rng.choice(devs)), shuffle=bool(rng.random() < 0.6),
                           random_seed=int(rng.integers(0, 10**6)), nsweeps=int(rng.integers(6, 11)),
                           vseed=int(rng.integers(0, 2**31 - 1)), test=str(rng.choice(["span", "max_diff"]))))
+    # README construction order (64-bit mode NOT enabled first) with seeds whose PRNG key depends on the integer width
+    # (negative, >= 2^32): every solver of a process - the first included - must draw the same stream from the same seed
+    for sd in (-3, 2 ** 32 + 5, 7, 0):
+        cases.append(dict(kind="readme-seeds", random_seed=sd, devices=1))
     return cases
 
 
+_SEEDS = r"""
+import sys, os, json
+if os.environ.get("MDPAX_SRC"): sys.path.insert(0, os.environ["MDPAX_SRC"])
+import numpy as np
+from mdpax.problems import Forest
+from mdpax.solvers import SemiAsyncValueIteration
+seed = int(sys.argv[1])
+p = Forest(S=40, p=0.13)
+out = []
+for i in range(3):
+    s = SemiAsyncValueIteration(p, gamma=0.9, epsilon=1e-9, verbose=0, max_batch_size=8, shuffle_states=True, random_seed=seed)
+    s.solve(2)
+    out.append([np.asarray(o).astype(int).tolist() for o in s._verif_sweep_orders])
+import jax
+key = jax.random.PRNGKey(seed)                 # 64-bit mode is on by now (the solvers switched it on)
+exp = []
+for _ in range(2):
+    key, sub = jax.random.split(key)
+    exp.append(np.asarray(jax.random.permutation(sub, 40)).astype(int).tolist())
+print("RESULT " + json.dumps(dict(orders=out, x64=bool(jax.config.jax_enable_x64), documented=exp)))
+"""
+
+
+def _readme_seeds(case):
+    import json
+    import os
+    import subprocess
+    import sys
+
+    env = dict(os.environ)
+    env["VF_NO_X64"] = "1"
+    p = subprocess.run([sys.executable, "-c", _SEEDS, str(case["random_seed"])], env=env, capture_output=True, text=True, timeout=900)
+    line = [l for l in p.stdout.splitlines() if l.startswith("RESULT ")]
+    if not line:
+        return dict(status="violation", kind="target-exception", detail=f"random_seed={case['random_seed']}: README-order solvers failed: {p.stderr[-400:]}")
+    out = json.loads(line[0][7:])
+    o = out["orders"]
+    if any(len(x) != 2 or sorted(x[0]) != list(range(40)) for x in o):
+        return dict(status="error", detail="hook record of sweep orders missing in the README-order child")
+    for i in (1, 2):
+        if o[i] != o[0]:
+            return dict(status="violation", kind="reproducibility",
+                        detail=f"random_seed={case['random_seed']}: solver #{i + 1} built in a process (README order, 64-bit mode enabled by the "
+                               f"first solver) draws other sweep orders than solver #1 from the same seed")
+    return dict(status="ok", n_obs=6, perms=2, cls=[1, 5, 8, 0, "shuffled-readme-order"], batch_shape=[1, 5, 8], n_pad=0, multi_batch=True,
+                structure="forest", matches_split_permutation_stream=bool(o[0] == out["documented"]))
+
+
 def run_case(case):
+    if case.get("kind") == "readme-seeds":
+        return _readme_seeds(case)
     first = _run_one(case)
     if first["status"] != "ok" or case.get("kind", "gen") != "gen":
         return first
